@@ -148,6 +148,39 @@
 //     handled "exemplar labels have N runes" error is tolerated only once a
 //     measurement with the long value has been made.
 //
+//   - data Prometheus cannot represent (unrep_test.go): ONE element of a case
+//     - a resource attribute value or key, a scope attribute value or key, one
+//     value of one attribute set of an instrument - may be a byte string that is
+//     not valid UTF-8 (resource.NewSchemaless, WithInstrumentationAttributes
+//     and attribute.String accept it; Prometheus label values - and, under the
+//     UTF-8 scheme, label names - must be valid UTF-8). Asserted: the registry
+//     still accepts EVERY scrape (Gather returns no error; what cannot be
+//     represented must not reach the registry as an invalid metric) and
+//     everything that can be represented stays exact (other scopes, other
+//     series of the instrument, target_info when the resource is fine). Not
+//     asserted: what becomes of the unrepresentable element itself
+//     (target_info of such a resource; otel_scope_info AND the instruments of
+//     such a scope - the unchanged tree leaves the whole scope out -; the series
+//     of such an attribute set). client_golang's "is not valid UTF-8" / "is not
+//     a valid label name" going to otel.Handle is expected for such a case.
+//   - attribute values that are not strings (int64, bool, float64 and the four
+//     slice types, on instruments, scopes and the resource): the reference
+//     label value is the value's canonical string form (attribute.Value.Emit,
+//     the attribute package's rendering, not the exporter's code) - "faithful
+//     series" read as "the label says what the attribute says".
+//   - explicit-bucket histograms created with boundaries of the caller's
+//     choosing (none at all, one, negative ones); observable callbacks that
+//     return an error after all / half of their observations (both readers of
+//     the provider pass the error on after collecting; the values collected
+//     stay the ManualReader's).
+//   - fresh_process (fresh_test.go): whatever is settled once per PROCESS can
+//     only be raced by the first scrapes of a process, so each case is run in
+//     2..3 fresh child processes (this test binary re-executed, -race) in which
+//     the first scrapes of 2..4 unrelated exporters - optionally held together
+//     by a rendezvous in their first observable callback, optionally with
+//     measuring goroutines - are released at once. A race report ends the
+//     child with exit code 66 = violation data_race.
+//
 // Defect found by this check and since repaired in /repo (9e9b55c): a
 // description conflict whose first seen description is EMPTY was not resolved
 // (validateMetrics returned the existing help "", Collect replaced the
@@ -174,7 +207,7 @@ import (
 func TestScrapeModel(t *testing.T) {
 	vk.Run(t, vk.Spec[Case]{
 		Property: "C18", Check: "scrape_model",
-		Rule: "a registry: exporter options x {UTF-8, legacy} scheme, resource, 1..3 scopes (names may repeat; attributes from a pool with the reserved labels otel_scope_name/version, keys sanitising to them, ordinary and mutually colliding keys), 1..6 instruments (14 kinds; histograms explicit-bucket or base-2 exponential with MaxSize {160,20,4} x MaxScale {20,3,0,-2} and positive/negative/zero values) with grammar names biased to total/unit words, all table units + unknown ones, one (often colliding) key set with 1..5 tuples, exact measurements (some in sampled span contexts, with a View-filtered attribute that becomes the exemplar's, short or over-long), optionally a scrape before the exporter is registered and a second never-registered exporter scraped in between, 1..3 sequential scrapes each compared with a ManualReader on the same provider; " +
+		Rule: "a registry: exporter options x {UTF-8, legacy} scheme, resource, 1..3 scopes (names may repeat; attributes from a pool with the reserved labels otel_scope_name/version, keys sanitising to them, ordinary and mutually colliding keys), 1..6 instruments (14 kinds; histograms explicit-bucket or base-2 exponential with MaxSize {160,20,4} x MaxScale {20,3,0,-2} and positive/negative/zero values) with grammar names biased to total/unit words, all table units + unknown ones, one (often colliding) key set with 1..5 tuples, exact measurements (some in sampled span contexts, with a View-filtered attribute that becomes the exemplar's, short or over-long), attribute values of every type (string, int64, bool, float64, slices) on instruments / scopes / resource, in a tenth of the cases one resource / scope / instrument attribute value or key that is not valid UTF-8 (unrepresentable in Prometheus: the registry must still accept every scrape and the rest stay exact), explicit-bucket histograms with caller-chosen boundaries (none, one, negative), observable callbacks that fail after all / half of their observations, optionally a scrape before the exporter is registered and a second never-registered exporter scraped in between, 1..3 sequential scrapes each compared with a ManualReader on the same provider; " +
 			"non-trivial = some instrument name contains 'total' or a unit word, or attribute keys collide after sanitisation under the legacy scheme; distinct = distinct case encodings",
 		Quick: 3000, Thorough: 40000,
 		Gen: genCase(false, 20), Run: runSeq,
@@ -186,7 +219,7 @@ func TestConcurrentScrapes(t *testing.T) {
 		Property: "C18", Check: "concurrent_scrapes",
 		Rule: "the same registries (half of them with conflicting families across scopes); first 2..8 concurrent FIRST scrapes on each of 2..6 fresh exporters after all measurements, then the registry scraped by 2..4 goroutines (1..3 Gather calls each) concurrently with 1..3 measuring goroutines, on 1..3 fresh exporters, under the race detector; then one quiescent scrape compared exactly; " +
 			"non-trivial = every case (>= 2 concurrent scrapes); distinct = distinct case encodings",
-		Quick: 800, Thorough: 12000,
+		Quick: 600, Thorough: 12000,
 		Gen: genCase(true, 50), Run: runConc,
 		Repeat: 20,
 	})
